@@ -400,7 +400,7 @@ def c03_order(m, run):
     # the list variant returns, for every parameter of a list, the span the single-parameter search returns (sorted lists with
     # parameters on knots included: a span found for one parameter is not a valid answer for the next one on the closing knot)
     from .skel import FnRef
-    tls = Tally(run, 'OT1.span-is-the-half-open-interval', 'helpers.find_spans', tl.describe + ' (all positions of one knot vector passed as one sorted list, both search functions)')
+    tls = Tally(run, 'OT1.span-is-the-half-open-interval', 'helpers.find_spans', tl.describe + ' (all positions of one knot vector passed as one ascending and as one descending list, both search functions)')
     for p in range(1, P + 1):
         for n in range(p + 1, p + N + 1):
             for clamped in (True, False):
@@ -418,10 +418,12 @@ def c03_order(m, run):
                         else:
                             want.append([i for i in range(p, n) if ranks[i] <= u < ranks[i + 1]][0])
                     for fkey in ('helpers.find_span_linear', 'helpers.find_span_binsearch'):
-                        def posts(sk, out, want=want):
-                            if list(out) != want:
-                                raise Violation('OT1', 'find_spans returned %r for the sorted parameters, the half-open intervals are %r' % (out, want))
-                        tls.add((p, n, tuple(ranks), fkey), run1(m, 'helpers.find_spans', [p, [Ord(r) for r in ranks], n, [Ord(u) for u in pos], FnRef(m.func(fkey))], {}, posts))
+                        # ascending and descending lists: the answer for a parameter does not depend on its neighbours in the list
+                        for order_, pos_, want_ in (('ascending', pos, want), ('descending', pos[::-1], want[::-1])):
+                            def posts(sk, out, want=want_, order_=order_):
+                                if list(out) != want:
+                                    raise Violation('OT1', 'find_spans returned %r for the %s parameter list, the half-open intervals are %r' % (out, order_, want))
+                            tls.add((p, n, tuple(ranks), fkey, order_), run1(m, 'helpers.find_spans', [p, [Ord(r) for r in ranks], n, [Ord(u) for u in pos_], FnRef(m.func(fkey))], {}, posts))
     finish(tls, 'geomdl/helpers.py')
     run.assume('order-type abstraction: distinct knots / parameters differ by more than every tolerance they are compared with (1e-5 snap of find_span_binsearch, 1e-7 of find_multiplicity)')
     # knotvector.check over every rank sequence (including decreasing ones and wrong lengths)
